@@ -783,6 +783,10 @@ pub struct LineInfo {
     pub clusters: usize,
     /// the line has a `--`; everything behind it is positional
     pub double_dash: bool,
+    /// words behind a command name that an item of an enclosing level claims
+    pub claimed_by_outer_level: usize,
+    /// items of the inner level that are spelled like such a word
+    pub shadowed: Vec<usize>,
 }
 
 fn spellings(n: &Named) -> (Vec<Vec<u8>>, Vec<Vec<u8>>) {
@@ -863,7 +867,57 @@ pub fn scan(ix: &Index, argv: &[Tok]) -> Option<LineInfo> {
                         anc = ix.levels[a].parent;
                     }
                     if shared {
-                        return None;
+                        // The enclosing level is evaluated first. When exactly one item out
+                        // there accepts this word, and it is a plain single-use field that has
+                        // not had its occurrence yet, that item claims the word although it
+                        // stands behind the command name; everything else stays ambiguous.
+                        let inner_is_flag = it.is_flag;
+                        let mut claimers: Vec<&Item> = Vec::new();
+                        let mut anc = ix.levels[level].parent;
+                        while let Some(a) = anc {
+                            claimers.extend(ix.items.iter().filter(|o| o.level == a).filter(|o| {
+                                let (os, ol) = spellings(&o.named);
+                                os.iter().chain(ol.iter()).any(|n| {
+                                    tok == n || (tok.starts_with(n) && tok.get(n.len()) == Some(&b'='))
+                                })
+                            }));
+                            anc = ix.levels[a].parent;
+                        }
+                        let single_use = |o: &Item| {
+                            o.ctx == Ctx::Simple
+                                && o.group.is_none()
+                                && !o.adjacent_arg
+                                && o.is_flag == inner_is_flag
+                                // (under `catch` a value that does not convert is put back)
+                                && !o.stack.iter().any(|w| {
+                                    matches!(
+                                        w,
+                                        W::Optional { catch: true }
+                                            | W::Many { catch: true }
+                                            | W::Some_ { catch: true, .. }
+                                            | W::Collect { catch: true }
+                                    )
+                                })
+                                && !o.stack.iter().any(|w| {
+                                    matches!(
+                                        w,
+                                        W::Many { .. } | W::Some_ { .. } | W::Collect { .. } | W::Count | W::Last
+                                    )
+                                })
+                        };
+                        match claimers[..] {
+                            [o] if single_use(o)
+                                && !it.adjacent_arg
+                                && info.occurrences.get(&o.id).copied().unwrap_or(0) == 0 =>
+                            {
+                                let attached = hit.as_ref().unwrap().1.clone();
+                                hit = Some((o, attached));
+                                info.claimed_by_outer_level += 1;
+                                info.shadowed.push(it.id);
+                                break;
+                            }
+                            _ => return None,
+                        }
                     }
                 }
                 if hit.is_some() {
@@ -1784,6 +1838,9 @@ pub fn run_case(case: &Case, stats: &mut Stats) -> RunReport {
                     }
                 };
                 stats.bump("line.plain");
+                if info.claimed_by_outer_level > 0 {
+                    stats.bump("probe.word_behind_a_command_claimed_by_an_outer_item");
+                }
                 // Lines on which an adjacent group has to find its place although its first
                 // member - the anchor bpaf searches for - is absent and comes from a variable
                 // are subject to the recorded finding about such groups (known_findings.txt):
@@ -1843,8 +1900,10 @@ pub fn run_case(case: &Case, stats: &mut Stats) -> RunReport {
                     let set = first_set(&it.named);
                     // a level with fallback_to_usage that sees nothing on its part of the
                     // line answers a failed parse with usage on stdout instead of an error
+                    // (words behind the command name that an outer item claimed are gone by the
+                    // time the level looks at its part of the line)
                     let usage_level_empty = l.ix.levels[it.level].fallback_to_usage
-                        && info.level_start[&it.level] == argv.len();
+                        && (info.level_start[&it.level] == argv.len() || info.claimed_by_outer_level > 0);
                     let wrappers = it
                         .stack
                         .iter()
@@ -2002,12 +2061,19 @@ pub fn run_case(case: &Case, stats: &mut Stats) -> RunReport {
                                     violation!(
                                         "R8",
                                         opi,
-                                        format!(
-                                            "rule=R8 shared-name={} classes={}/{}",
-                                            shared,
-                                            first.outcome.class(),
-                                            other.outcome.class()
-                                        ),
+                                        if shared && !it.is_flag {
+                                            // one recorded mechanism whatever it does to the
+                                            // outcome (known_findings.txt)
+                                            "rule=R8 shared-name=true self=argument".to_string()
+                                        } else {
+                                            format!(
+                                                "rule=R8 shared-name={} self={} classes={}/{}",
+                                                shared,
+                                                if it.is_flag { "flag" } else { "argument" },
+                                                first.outcome.class(),
+                                                other.outcome.class()
+                                            )
+                                        },
                                         format!(
                                             "item {:?} is absent from its own command level and its variable is set; renaming the item changes the outcome, so its variable fallback depends on something outside its scope\nas declared: {}\nrenamed    : {}",
                                             it.named,
@@ -2016,6 +2082,13 @@ pub fn run_case(case: &Case, stats: &mut Stats) -> RunReport {
                                         )
                                     );
                                 }
+                            }
+                            // an item whose name stands in its scope but was claimed by an
+                            // enclosing level is subject to the recorded finding (R8 above
+                            // reports it under its own key); the other rules would only
+                            // measure the same thing again
+                            if info.shadowed.contains(&it.id) {
+                                continue;
                             }
                             // ---- R3 inside an adjacent group: when the group's other
                             // members form exactly one contiguous block on the line, the
